@@ -601,7 +601,7 @@ def check_c18(tier, deadline):
     # free-running pass under ThreadSanitizer (a cooperative scheduler's hand-offs are happens-before edges that would blind the detector)
     tdir = build("tsan", ("drv_sched",))
     sc2 = scratch_dir("c18tsan"); out2 = os.path.join(sc2, "out.json"); reps = 20 if tier == "quick" else 200
-    env = dict(os.environ); env["TSAN_OPTIONS"] = "halt_on_error=0:report_signal_unsafe=0:exitcode=0:log_path=" + os.path.join(sc2, "tsan")
+    env = dict(os.environ); env["TSAN_OPTIONS"] = "halt_on_error=0:report_signal_unsafe=0:exitcode=0:die_after_fork=0:log_path=" + os.path.join(sc2, "tsan")
     r2 = sh([os.path.join(tdir, "drv_sched"), "--tier", tier, "--reps", str(reps), "--scratch", sc2, "--out", out2], env=env, capture_output=True, text=True)
     free = json.load(open(out2)) if os.path.exists(out2) else None
     reports = []
